@@ -42,17 +42,20 @@ def never_returns_false(results):
 
 
 class Analyzer:
-    """one analysis per function, on demand; `usr in analyzer` answers "this rule-boundary function never returns
-    false" (only true or an exception: must, raise, star, opt, success ...), computed from the callee's own
-    analysis (memoised; a callee that is being analysed further up the stack is conservatively 'may fail')."""
+    """one analysis per function, on demand; `usr in analyzer` answers "this rule-boundary function never returns false" (only true or an
+    exception: must, raise, star, opt, success ...), computed from the callee's own analysis (memoised).
+
+    Recursion: "may return false" is a least fixpoint (a false return has to originate on some path), so a callee that is still being
+    analysed further up the stack is first assumed never to return false; if its finished analysis disagrees, it is added to the functions known
+    to fail, everything computed under the wrong assumption is dropped and the outermost analysis is repeated - until no assumption is refuted."""
 
     def __init__(self, db, monitor_cls=RewindMonitor, maxsteps=400000):
         self.db = db; self.cache = {}; self.busy = set(); self.monitor_cls = monitor_cls; self.maxsteps = maxsteps
+        self.stack = []; self.assumed = set(); self.may_fail = set(); self.refuted = False
 
-    def get(self, fn):
+    def _run(self, fn):
         u = fn['u']
-        if u in self.cache: return self.cache[u]
-        self.busy.add(u)
+        self.busy.add(u); self.stack.append(u)
         try:
             r = analyse(self.db, fn, self, self.monitor_cls, self.maxsteps)
         except Budget:
@@ -60,12 +63,35 @@ class Analyzer:
         except Unmodelled as e:
             r = ('unmodelled', str(e), 0)
         finally:
-            self.busy.discard(u)
+            self.busy.discard(u); self.stack.pop()
+        if u in self.assumed and u not in self.may_fail:
+            ok = isinstance(r[0], collections.Counter) and bool(r[0]) and never_returns_false(r[0])
+            if not ok:
+                self.may_fail.add(u); self.refuted = True
+        return r
+
+    def get(self, fn):
+        u = fn['u']
+        if u in self.cache: return self.cache[u]
+        if self.stack:
+            r = self._run(fn)
+            if not self.refuted: self.cache[u] = r
+            return r
+        for _ in range(40):
+            self.refuted = False; self.assumed = set()
+            r = self._run(fn)
+            if not self.refuted: break
+            self.cache.clear()          # results that relied on a refuted assumption are dropped
+        else:
+            r = ('budget', None, 0)
         self.cache[u] = r
         return r
 
     def __contains__(self, u):
-        if u in self.busy: return False
+        if u in self.busy:
+            if u in self.may_fail: return False
+            self.assumed.add(u)
+            return True
         fn = self.db.get(u)
         if fn is None or fn.get('body') is None or not is_match_root(fn): return False
         r = self.get(fn)
